@@ -10,7 +10,7 @@ exactly with `merge_grid` / `euler`.  Independently the property itself is evalu
 observations (oracle).  The for-all part is Props/C05.v.
 
 Raman on (PARTIAL by design): the low-power limit of the numerical method is compared with the proved
-zero-power closed form; everything else about the Raman solver (perturbative orders 1-4 vs numerical,
+zero-power closed form and discretisation bound; everything else about the Raman solver (perturbative orders 1-4 vs numerical,
 iterative co/counter algorithm, counter-pump gain) is a NUMERICAL TEST with measured tolerances — labelled
 as such in ctx.notes / the evidence.
 """
@@ -914,12 +914,12 @@ def run(ctx):
         cases = [json.load(open(ctx.replay))['case']]
     else:
         eq0, _ = base_eq()
-        cases += [gen_fiber_case(rng) for _ in range(ctx.scale(260, 4000))]
-        cases += [gen_path_case(rng, eq0) for _ in range(ctx.scale(40, 500))]
-        cases += [gen_path_case(rng, eq0, max_units=rng.choice([3, 4, 4])) for _ in range(ctx.scale(8, 80))]
-        cases += [gen_merge_case(rng) for _ in range(ctx.scale(120, 2000))]
-        cases += [gen_euler_case(rng) for _ in range(ctx.scale(60, 600))]
-        cases += [gen_raman_low_case(rng) for _ in range(ctx.scale(24, 300))]
+        cases += [gen_fiber_case(rng) for _ in range(ctx.scale(200, 3000))]
+        cases += [gen_path_case(rng, eq0) for _ in range(ctx.scale(32, 400))]
+        cases += [gen_path_case(rng, eq0, max_units=rng.choice([3, 4, 4])) for _ in range(ctx.scale(6, 60))]
+        cases += [gen_merge_case(rng) for _ in range(ctx.scale(100, 1500))]
+        cases += [gen_euler_case(rng) for _ in range(ctx.scale(40, 500))]
+        cases += [gen_raman_low_case(rng) for _ in range(ctx.scale(20, 300))]
         cases += [gen_raman_cmp_case(rng) for _ in range(ctx.scale(6, 60))]
         cases += [gen_raman_pump_case(rng) for _ in range(ctx.scale(4, 40))]
     terms, post = [], []
@@ -927,9 +927,10 @@ def run(ctx):
         sim.set()                                   # Raman off, default NLI
         tkind = {}
         tlast = time.time()
+        kind = 'setup'
         for c in cases:
             now = time.time()
-            tkind[kind if 'kind' in dir() else 'start'] = tkind.get(kind if 'kind' in dir() else 'start', 0.0) + now - tlast
+            tkind[kind] = tkind.get(kind, 0.0) + now - tlast        # time spent on the previous case
             tlast = now
             kind = c['kind']
             ctx.count('kind_' + kind)
@@ -993,7 +994,7 @@ def run(ctx):
     npath = ctx.counters.get('kind_path', 0) + ctx.counters.get('kind_perm', 0)
     if not ctx.replay and ctx.counters.get('path_design_exception', 0) > 0.2 * max(npath, 1):
         raise RuntimeError('more than 20% of the generated line systems could not be designed: generator broken')
-    tkind[kind if 'kind' in dir() else 'start'] = tkind.get(kind if 'kind' in dir() else 'start', 0.0) + time.time() - tlast
+    tkind[kind] = tkind.get(kind, 0.0) + time.time() - tlast
     ctx.extra['python_seconds_by_kind'] = {k: round(v, 2) for k, v in tkind.items()}
     t_coq = time.time()
     import random
@@ -1022,24 +1023,25 @@ def run(ctx):
                 ctx.corr_break('corr:RamanSolver numerical, zero-power limit', f'fibre loss at {c["p"]:.1e} W/channel {impl} dB vs '
                                f'proved closed form prod(1-alpha dz) * prod(lumped) = {mdb:.9f} dB', strip(c), impl=impl, model=mdb)
     ctx.notes += [
-        'PROVED (Props/C05.v): Raman-off budget, lumped merge (iff distinct positions), path additivity / permutation invariance, '
-        'PMD/PDL quadrature (R) and its rational squared form, pi-cancellation of CD for scalar dispersion, Euler zero-power closed form, '
-        'each lumped loss once on the solver grid, first-order pump gain >= 0.',
+        'PROVED (Props/C05.v): Raman-off budget for every lumped-loss list (repeated positions accumulate, fix d757514e); merged grid '
+        'carries the total of all lumped losses and is sorted; path additivity / permutation invariance of CD, latency, PMD^2, PDL^2; '
+        'PMD/PDL quadrature over R and its rational squared form; pi cancels in the span CD for scalar, slope and table dispersion; '
+        'Euler zero-power closed form, its real limit as the input powers go to 0, each lumped loss once on the solver grid, the '
+        'discretisation bound |ln prod(1-alpha dz)+alpha L| <= 2 sum (alpha dz)^2; first-order pump gain >= 0.',
         'TEST ONLY (not proved, numerical comparison on the real RamanSolver): (a) low-power limit vs budget — perturbative orders 1-4 '
-        'within 1e-7 dB, numerical within the Euler discretisation bound 4.343*sum((alpha dz_k)^2) dB + 1e-7 dB and within 1e-7 dB of the '
-        'proved closed form; (b) perturbative (orders 1-4) vs numerical SRS gain after removing each method\'s zero-power attenuation: '
-        'tolerance 1e-5 + 3*g*(alpha*dz + dz/L) dB (+ 4.343*(g/4.343)^2 dB for order 1), g = max |SRS gain| in dB; measured on the unchanged '
-        'code: worst ratio residual/tolerance ~0.35; (c) counter-propagating pumps (iterative algorithm when co-propagating power exists) '
-        'never lower any channel at any z by more than 1e-6 dB relative to the same fibre without them, both integrated by the Euler scheme on '
-        'the same grid (measured minimum on the unchanged code: 0.0 dB).',
+        'within 1e-7 dB, numerical within the proved discretisation bound 2*4.343*sum((alpha dz_k)^2) dB + 1e-7 dB (when alpha dz <= 1/2) '
+        'and within 1e-7 dB of the proved closed form (exact, grids <= 60 points); (b) perturbative (orders 1-4) vs numerical SRS gain after '
+        'removing each method\'s zero-power attenuation: tolerance 1e-5 + 3*g*(alpha*dz + dz/L) dB (+ 4.343*(g/4.343)^2 dB for order 1), '
+        'g = max |SRS gain| in dB; measured on the unchanged code: worst residual/tolerance ~0.35; (c) counter-propagating pumps '
+        '(iterative algorithm) never lower any channel at any z by more than 1e-6 dB relative to the same fibre without them, both '
+        'integrated by the Euler scheme on the same grid (measured minimum on the unchanged code: 0.0 dB).',
         'The raw difference between the numerical and perturbative methods is dominated by the Euler bias (0.018 dB per 80 km at 50 m '
         'steps, 5.4 dB at the RamanParams default solver_spatial_resolution of 10 km): the methods agree only up to that bound.',
     ]
     ctx.assumptions += [
-        'the Q model of interp1d/numpy.interp, numpy.unique/argsort and numpy.polyfit (least squares, normal equations) is exact arithmetic; '
-        'float rounding inside numpy/scipy is absorbed by the 1e-9 relative (1e-9 dB) tolerance',
-        'pi enters the dispersion formulas of the model as the rational 355/113; cd_scalar / cd_slope prove that it cancels for scalar '
-        'dispersion, for dispersion_per_frequency the cancellation is checked by the run only',
+        'the Q model of interp1d/numpy.interp, numpy.unique + multiply.at and numpy.polyfit (least squares, normal equations) is exact '
+        'arithmetic; float rounding inside numpy/scipy is absorbed by the 1e-9 relative (1e-9 dB) tolerance',
+        'pi enters the dispersion formulas of the model as the rational 355/113; cd_scalar / cd_slope / cd_table_pi_indep prove that it cancels',
         'amplifier and ROADM PMD/PDL values fed to the model come from the generated equipment configuration (the auto-selected amplifier '
         'variety and the ROADM variety are read from the built elements)',
         'Raman solver beyond the Euler zero-power limit and first-order pump gain is compared numerically only (see notes)',
